@@ -3,10 +3,16 @@ From Bfe Require Import lib.Val model.IpDict.
 Import ListNotations.
 Open Scope Z_scope.
 
-(* input : [ [ [xS xE] ... ]  [ xSingle ... ]  [ xProbe ... ]  maxSingle  noUpdate ]
+(* input : [ [ [xS xE] ... ]  [ xSingle ... ]  [ xProbe ... ]  maxSingle  mode ]            (mode 0, 1)
+           [ pairs singles probes maxSingle 2 pairs2 singles2 ]                               (mode 2: reload)
             (addresses: 4- or 16-byte strings, other lengths are invalid net.IPs; maxSingle = first argument of
-             NewIPItems; noUpdate <> 0: IPTable.Update is not called, the table stays empty)
-   output: [ pairErrs singleErrs s1 s2 final results length ]
+             NewIPItems; mode 1: IPTable.Update is not called, the table stays empty; mode 2: a second dictionary
+             version is loaded and swapped in by IPTable.Update)
+   output: [ pairErrs singleErrs s1 s2 final results length ]   ++ in mode 2
+           [ pairErrs2 singleErrs2 s1' s2' final' resultsMid resultsAfter ]
+            resultsMid   : Search(probe) started on version 1 while Update(version 2) lands between the snapshot
+                           and the two lookup steps (forced through the hash function of the single-address set)
+            resultsAfter : Search(probe) after the Update
             pairErrs/singleErrs : 0/1 per InsertPair / InsertSingle call (1 = error)
             s1    : the pair array after the first sort.Sort     (entries [xStart16 xEnd16])
             s2    : the pair array after mergeItems (merged items first, zero-address lines last)
@@ -17,17 +23,33 @@ Open Scope Z_scope.
 Definition dec_pair (v : val) : option (list Z * list Z) :=
   match v with VL [VB s; VB e] => Some (s, e) | _ => None end.
 Record input := { in_pairs : list (list Z * list Z); in_singles : list (list Z); in_probes : list (list Z);
-                  in_maxsingle : Z; in_noupd : bool }.
+                  in_maxsingle : Z; in_mode : Z;
+                  in_pairs2 : list (list Z * list Z); in_singles2 : list (list Z) }.
+Definition in_noupd (i : input) : bool := in_mode i =? 1.
 Definition dec_input (v : val) : option input :=
   match v with
-  | VL [VL ps; ss; qs; VZ ms; VZ nu] =>
+  | VL [VL ps; ss; qs; VZ ms; VZ md] =>
     match all_some (map dec_pair ps), as_LB ss, as_LB qs with
     | Some p, Some s, Some q =>
-      Some {| in_pairs := p; in_singles := s; in_probes := q; in_maxsingle := ms; in_noupd := negb (nu =? 0) |}
+      if (md =? 0) || (md =? 1) then
+        Some {| in_pairs := p; in_singles := s; in_probes := q; in_maxsingle := ms; in_mode := md;
+                in_pairs2 := []; in_singles2 := [] |}
+      else None
     | _, _, _ => None
+    end
+  | VL [VL ps; ss; qs; VZ ms; VZ 2; VL ps2; ss2] =>
+    match all_some (map dec_pair ps), as_LB ss, as_LB qs, all_some (map dec_pair ps2), as_LB ss2 with
+    | Some p, Some s, Some q, Some p2, Some s2 =>
+      Some {| in_pairs := p; in_singles := s; in_probes := q; in_maxsingle := ms; in_mode := 2;
+              in_pairs2 := p2; in_singles2 := s2 |}
+    | _, _, _, _, _ => None
     end
   | _ => None
   end.
+(* the second dictionary version as an input of its own *)
+Definition second (i : input) : input :=
+  {| in_pairs := in_pairs2 i; in_singles := in_singles2 i; in_probes := in_probes i;
+     in_maxsingle := in_maxsingle i; in_mode := 0; in_pairs2 := []; in_singles2 := [] |}.
 
 Fixpoint keep_some {A} (l : list (option A)) : list A :=
   match l with [] => [] | Some x :: r => x :: keep_some r | None :: r => keep_some r end.
@@ -71,59 +93,97 @@ Definition probe_result (singles : list Z) (final : list rng) (q : list Z) : boo
 Definition final_of (n : nat) (cnt : Z) (s2 : list rng) : list rng :=
   firstn (Z.to_nat (Z.of_nat n - cnt)) s2.
 
+(* the seven observations of one dictionary version, given its sorted array *)
+Definition version_obs (i : input) (s1 : list rng) : list val :=
+  let its := loaded_items i in
+  let '(m, cnt) := merge_items s1 in
+  let fin := final_of (length its) cnt m in
+  let sg := loaded_singles i in
+  let tsg := if in_noupd i then [] else sg in
+  let tfin := if in_noupd i then [] else fin in
+  [pair_errs i; single_errs i; enc_rngs s1; enc_rngs m; enc_rngs fin;
+   VL (map (fun q => vbool (probe_result tsg tfin q)) (in_probes i));
+   VZ (Z.of_nat (length fin) + Z.of_nat (length sg))].
+Definition results_of (o : list val) : val := nth 5 o (VL []).
+
 Definition run_C19 (v : val) : val :=
   match dec_input v with
   | None => VErr 0
   | Some i =>
-    let its := loaded_items i in
-    let s1 := go_insertion_sort its in
-    let '(m, cnt) := merge_items s1 in
-    let fin := final_of (length its) cnt m in
-    let sg := loaded_singles i in
-    let tsg := if in_noupd i then [] else sg in
-    let tfin := if in_noupd i then [] else fin in
-    VL [pair_errs i; single_errs i; enc_rngs s1; enc_rngs m; enc_rngs fin;
-        VL (map (fun q => vbool (probe_result tsg tfin q)) (in_probes i));
-        VZ (Z.of_nat (length fin) + Z.of_nat (length sg))]
+    let o1 := version_obs i (go_insertion_sort (loaded_items i)) in
+    if in_mode i =? 2 then
+      let j := second i in
+      let o2 := version_obs j (go_insertion_sort (loaded_items j)) in
+      (* a Search overlapped by the Update answers from its snapshot = version 1; afterwards version 2 *)
+      VL (o1 ++ firstn 5 o2 ++ [results_of o1; results_of o2])
+    else VL o1
   end.
 
 (* Trace validation: sort.Sort is only constrained to return a sorted permutation, so the sorted array
    reported by the implementation is validated (not recomputed); everything else (the array after
-   mergeItems, the resliced array, every Search answer) is recomputed from it by the model and compared exactly. *)
+   mergeItems, the resliced array, Length, every Search answer) is recomputed from it by the model and
+   compared exactly. *)
+Fixpoint vals_eqb (a b : list val) : bool :=
+  match a, b with
+  | [], [] => true
+  | x :: a', y :: b' => val_eqb x y && vals_eqb a' b'
+  | _, _ => false
+  end.
+Definition agree_version (i : input) (o : list val) : bool :=
+  match dec_rngs (nth 2 o (VZ 0)) with
+  | Some s1 => sorter_outcome_ok (loaded_items i) s1 && vals_eqb (version_obs i s1) o
+  | None => false
+  end.
 Definition agree_C19 (v o : val) : bool :=
   match dec_input v, o with
-  | Some i, VL [pe; se; vs1; vm; vfin; vres; vlen] =>
-    match dec_rngs vs1 with
-    | Some s1 =>
-      let its := loaded_items i in
-      let '(m, cnt) := merge_items s1 in
-      let fin := final_of (length its) cnt m in
-      let sg := loaded_singles i in
-      let tsg := if in_noupd i then [] else sg in
-      let tfin := if in_noupd i then [] else fin in
-      val_eqb pe (pair_errs i) && val_eqb se (single_errs i)
-      && sorter_outcome_ok its s1
-      && val_eqb vm (enc_rngs m)
-      && val_eqb vfin (enc_rngs fin)
-      && val_eqb vres (VL (map (fun q => vbool (probe_result tsg tfin q)) (in_probes i)))
-      && val_eqb vlen (VZ (Z.of_nat (length fin) + Z.of_nat (length sg)))
-    | None => false
-    end
+  | Some i, VL l =>
+    if in_mode i =? 2 then
+      let o1 := firstn 7 l in
+      match skipn 7 l with
+      | [pe2; se2; vs12; vm2; vfin2; vmid; vafter] =>
+        let j := second i in
+        match dec_rngs vs12 with
+        | Some s12 =>
+          let o2 := version_obs j s12 in
+          agree_version i o1 && sorter_outcome_ok (loaded_items j) s12
+          && vals_eqb (firstn 5 o2) [pe2; se2; vs12; vm2; vfin2]
+          && val_eqb vmid (results_of o1) && val_eqb vafter (results_of o2)
+        | None => false
+        end
+      | _ => false
+      end
+    else agree_version i l
   | None, _ => val_eqb o (VErr 0)
   | _, _ => false
   end.
 
 (* THE PROPERTY: every probe is reported exactly when it equals a loaded single address or lies inside a
-   loaded range (bounds included); probes that are not IP addresses are never contained. *)
+   loaded range (bounds included); probes that are not IP addresses are never contained.  In reload mode this
+   holds for each dictionary version, and a Search that overlaps the Update answers according to one of the
+   two versions (so an address contained in both is always reported). *)
 Definition spec_result (sg : list Z) (its : list rng) (q : list Z) : bool :=
   match to16 q with Some ip => spec sg its ip | None => false end.
+Definition spec_results (i : input) : list val :=
+  let sg := if in_noupd i then [] else loaded_singles i in
+  let its := if in_noupd i then [] else loaded_items i in
+  map (fun q => vbool (spec_result sg its q)) (in_probes i).
+Fixpoint one_of (a b c : list val) : bool :=          (* c pointwise equal to a or to b *)
+  match a, b, c with
+  | [], [], [] => true
+  | x :: a', y :: b', z :: c' => (val_eqb z x || val_eqb z y) && one_of a' b' c'
+  | _, _, _ => false
+  end.
 Definition prop_C19 (v o : val) : bool :=
   match dec_input v, o with
-  | Some i, VL [_; _; _; _; _; vres; _] =>
-    (* a table that was never updated contains nothing *)
-    let sg := if in_noupd i then [] else loaded_singles i in
-    let its := if in_noupd i then [] else loaded_items i in
-    val_eqb vres (VL (map (fun q => vbool (spec_result sg its q)) (in_probes i)))
+  | Some i, VL l =>
+    val_eqb (nth 5 l (VZ 0)) (VL (spec_results i)) &&
+    (if in_mode i =? 2 then
+       match nth 12 l (VZ 0), nth 13 l (VZ 0) with
+       | VL mid, vafter =>
+         val_eqb vafter (VL (spec_results (second i))) && one_of (spec_results i) (spec_results (second i)) mid
+       | _, _ => false
+       end
+     else true)
   | _, _ => false
   end.
 
